@@ -75,6 +75,13 @@ CHECKS = {
         note="Frozen-ness is decided from the descriptor (what was declared), not from library metadata; in-place attempts are tried on a deepcopy of the twin; init=False attributes are excluded (see DESIGN.md corrections log).",
         ref="DESIGN.md section 4, C07",
     ),
+    "C08": dict(
+        level="exploration",
+        technique="property-based testing over a class-definition grammar: Hypothesis-generated worlds and multi-instance histories; snapshots of defaults / constructor arguments / peers, reset compared with a freshly constructed instance and with the descriptor's default",
+        text="Hypothesis generates worlds with every default style (literal, mutable literal, Attr default/default_factory, dataclasses.field, spec- and plain-subclass overrides) and histories over a pool of up to 4 instances mixing construction (the harness keeps the argument objects), in-place helpers, nested in-place edits, reset_<a>, reset and del; after every step the class-level default objects, constructor arguments and other instances must be unchanged, and after a reset the attribute must equal a fresh instance's, be missing when no default is prescribed, and share no mutable object with defaults or peers. Sampled search.",
+        note="Existence of a default is decided from the descriptor; the expected value from an instance constructed with no arguments in the same world (C09 checks that against the descriptor).",
+        ref="DESIGN.md section 4, C08",
+    ),
 }
 
 NOT_YET = "check not built yet in this revision (see DESIGN.md section 9 for the order); nothing is claimed"
